@@ -106,7 +106,9 @@ TGeom == /\ IsEv("geom") /\ Exact
 \* ---- float meshes -------------------------------------------------------
 ScalarFacts == {"div_code_eq_formula", "grad_code_eq_formula", "lap_code_eq_formula", "neumann_code_eq_formula",
                 "lap_eq_div_grad", "weighted_div_sums_to_zero", "boundary_flux_integrates", "weighted_lap_symmetric",
-                "weighted_lap_max_eigenvalue", "lap_annihilates_constants", "grad_exact_on_linear"}
+                "weighted_lap_max_eigenvalue", "lap_annihilates_constants", "grad_exact_on_linear",
+                "assembled_divergence_eq_formula", "assembled_mu_gradient_eq_formula",
+                "assembled_mu_laplacian_eq_formula", "assembled_boundary_eq_formula"}
 CovFacts == {"covgrad_code_eq_formula", "covlap_code_eq_formula", "covgrad_refresh_eq_formula", "covlap_refresh_eq_formula",
              "covlap_hermitian", "supercurrent_code_eq_formula"}
 GaugeFacts == {"covgrad_covariant", "covlap_covariant", "supercurrent_invariant", "modulus_invariant"}
